@@ -55,6 +55,9 @@ pub struct C06Plan {
     pub reports: Vec<Report>,
     /// generator family, for the evidence only
     pub kind: u8,
+    /// deduplication window handed to decode1090 (process scenario only)
+    #[serde(default)]
+    pub dedup_ms: u32,
 }
 
 pub struct C06;
@@ -433,6 +436,7 @@ impl Scenario for C06 {
             restarts,
             reports: all,
             kind,
+            dedup_ms: 0,
         }
     }
     fn execute(&self, plan: &C06Plan) -> Outcome<C06Plan> {
@@ -594,11 +598,15 @@ fn build(plan: &C06Plan, skipped: &mut u64) -> Result<Vec<Built>, String> {
     for (i, r) in plan.reports.iter().enumerate() {
         let ac = &plan.aircraft[r.ac as usize % plan.aircraft.len()];
         let truth = ac.track.at(r.t_enc);
+        // type code from the encoding instant, so that a duplicate delivery of a
+        // report is the same frame byte for byte
+        let sel = (r.t_enc * 1000.0) as u64;
+        let _ = i;
         let (frame, enc) = if truth.surface {
-            let tc = if (5..=8).contains(&r.tc) { r.tc } else { 5 + (i % 4) as u8 };
+            let tc = if (5..=8).contains(&r.tc) { r.tc } else { 5 + (sel % 4) as u8 };
             world::df17_surface_position(ac.icao, tc, truth.gs, truth.heading, truth.lat, truth.lon, r.odd)
         } else {
-            let tc = if (9..=18).contains(&r.tc) || (20..=22).contains(&r.tc) { r.tc } else { 9 + (i % 10) as u8 };
+            let tc = if (9..=18).contains(&r.tc) || (20..=22).contains(&r.tc) { r.tc } else { 9 + (sel % 10) as u8 };
             world::df17_airborne_position(ac.icao, tc, truth.alt as i32, truth.lat, truth.lon, r.odd)
         };
         if world::nl_margin(enc.rlat) < 1e-6 {
@@ -1017,6 +1025,242 @@ pub fn execute(plan: &C06Plan) -> Outcome<C06Plan> {
         f.u64(built.len() as u64);
         out.oracle_states.push(f.0);
     }
+    out.violation = viol;
+    out
+}
+
+
+// ======================================================================
+// Secondary subject: decode1090, the offline decoder. Its main() drives the
+// same stateful decoder from its own call site (inlined deduplication in front
+// of it, `update_reference` on, reference given on the command line) and can
+// only be run as a process: the generated history is written as a JSONL file,
+// the real binary is executed on it, and clause 1 is applied to the positions
+// it prints. Deterministic: one task, no clock.
+
+pub struct Decode1090Pos;
+
+impl Scenario for Decode1090Pos {
+    type Plan = C06Plan;
+    fn id(&self) -> &'static str {
+        "C06"
+    }
+    fn kind(&self) -> &'static str {
+        "decode1090"
+    }
+    fn seed_tag(&self) -> String {
+        "C06/decode1090".to_string()
+    }
+    fn runs(&self, tier: Tier) -> u64 {
+        match tier {
+            Tier::Quick => 2_000,
+            Tier::Thorough => 100_000,
+        }
+    }
+    fn generate(&self, rng: &mut Rng, tier: Tier, idx: u64) -> C06Plan {
+        let mut p = C06.generate(rng, tier, idx);
+        p.restarts.clear(); // one process, one state map
+        p.dedup_ms = *rng.pick(&[0u32, 0, 400, 400, 50]);
+        p
+    }
+    fn execute(&self, plan: &C06Plan) -> Outcome<C06Plan> {
+        execute_decode1090(plan)
+    }
+    fn shrink(&self, p: &C06Plan) -> Vec<C06Plan> {
+        let mut v = C06.shrink(p);
+        if p.dedup_ms != 0 {
+            let mut q = p.clone();
+            q.dedup_ms = 0;
+            v.insert(0, q);
+        }
+        v
+    }
+    fn meta(&self) -> Meta {
+        Meta {
+            level: "exploration",
+            rule: "One run = one generated air picture (same generator as the focused scenario, no restarts) written as a JSONL file and decoded by the real decode1090 binary (JSONL reader, inlined deduplication with a window of 0/50/400 ms, its own call of decode_position with update_reference on, JSON output); every latitude/longitude it prints is compared with the ground truth of the report it is printed for. Distinct = distinct hash of the fed history. Non-trivial = at least one channel fault or gap > 9.5 s occurred AND at least one printed position was compared.",
+            components: vec![
+                ("decode1090 binary (main(): JSONL reader, deduplication, process_entries -> decode_position, JSON output)", "real (separate process)"),
+                ("aircraft, transponder, encoder, channel", "stub (same world as the focused scenario)"),
+                ("input file", "stub (written by the driver before the process starts; no I/O faults injected)"),
+            ],
+            assumptions: vec![
+                "decode1090 moves its reference to any airborne position decoded below 1000 ft (update_reference); the driver tracks that reference from the printed records and judges a surface position only while the reference in force lies within 40 NM of the aircraft, as the property's quantifier states",
+                "printed coordinates are compared after the JSON text round trip (no tolerance needed at 25 m)",
+            ],
+            fault_kinds: vec!["loss_or_gap_over_9_5s", "duplicate", "timestamp_swap", "order_swap", "merged_by_dedup"],
+            probes: vec!["records_printed", "positions_printed", "positions_checked", "surface_checked", "surface_skipped_reference_moved_away", "reference_moved"],
+        }
+    }
+    fn sample(&self, p: &C06Plan) -> serde_json::Value {
+        C06.sample(p)
+    }
+}
+
+pub fn execute_decode1090(plan: &C06Plan) -> Outcome<C06Plan> {
+    let mut out = Outcome::new();
+    out.evaluations = 1;
+    let Ok(bin) = std::env::var("VERIF_DECODE1090") else {
+        out.harness_error = Some("VERIF_DECODE1090 (path of the decode1090 binary) is not set".to_string());
+        return out;
+    };
+    let mut skipped = 0u64;
+    let built = match build(plan, &mut skipped) {
+        Ok(b) => b,
+        Err(e) => {
+            out.harness_error = Some(e);
+            return out;
+        }
+    };
+    let mut text = String::new();
+    for (k, b) in built.iter().enumerate() {
+        text.push_str(&format!(
+            "{{\"timestamp\":{:?},\"frame\":\"{}\",\"metadata\":[{{\"system_timestamp\":{:?},\"serial\":{},\"name\":\"sim\"}}]}}\n",
+            b.msg.timestamp,
+            world::hex(&b.msg.frame),
+            b.msg.timestamp,
+            k
+        ));
+    }
+    let mut h = Fnv::new();
+    h.bytes(text.as_bytes());
+    h.u64(plan.dedup_ms as u64);
+    let dir = std::env::var("VERIF_SCRATCH").unwrap_or_else(|_| "/verif/.target/scratch".to_string());
+    let _ = std::fs::create_dir_all(&dir);
+    let path = format!("{}/c06-{:016x}-{:?}.jsonl", dir, h.0, std::thread::current().id());
+    if let Err(e) = std::fs::write(&path, &text) {
+        out.harness_error = Some(format!("cannot write {}: {}", path, e));
+        return out;
+    }
+    let mut args: Vec<String> = vec!["-i".into(), path.clone(), "-d".into(), plan.dedup_ms.to_string()];
+    if let Some((la, lo)) = plan.reference {
+        args.push(format!("--reference={:.7},{:.7}", la, lo));
+    }
+    let res = std::process::Command::new(&bin).args(&args).output();
+    let _ = std::fs::remove_file(&path);
+    let o = match res {
+        Ok(o) => o,
+        Err(e) => {
+            out.harness_error = Some(format!("cannot run {}: {}", bin, e));
+            return out;
+        }
+    };
+    let mut viol: Option<Violation> = None;
+    if !o.status.success() {
+        let err = String::from_utf8_lossy(&o.stderr);
+        viol = Some(Violation::new(
+            "c06.4-panic",
+            "decode1090-exit",
+            format!("decode1090 exited with {:?}: {}", o.status.code(), err.lines().find(|l| l.contains("panicked")).unwrap_or("")),
+        ));
+    }
+    // the reference in force, tracked from what the process printed (it moves
+    // to every airborne position decoded below 1000 ft)
+    let mut reference: Option<(f64, f64)> = plan.reference.map(|(la, lo)| (((la * 1e7).round()) / 1e7, ((lo * 1e7).round()) / 1e7));
+    let mut printed = 0u64;
+    let mut compared = 0u64;
+    let mut faulty = false;
+    for line in String::from_utf8_lossy(&o.stdout).lines() {
+        let Ok(v) = serde_json::from_str::<serde_json::Value>(line) else { continue };
+        out.count("records_printed", 1);
+        let members = v["metadata"].as_array().map(|a| a.len()).unwrap_or(0);
+        if members > 1 {
+            out.count("merged_by_dedup", 1);
+        }
+        let Some(k) = v["metadata"][0]["serial"].as_u64().map(|x| x as usize) else { continue };
+        let Some(b) = built.get(k) else { continue };
+        let (la, lo) = (v["latitude"].as_f64(), v["longitude"].as_f64());
+        match (la, lo) {
+            (Some(la), Some(lo)) => {
+                printed += 1;
+                let t = &b.truth;
+                let mut judge = true;
+                if t.surface {
+                    if let Some((rla, rlo)) = reference {
+                        if world::gc_dist_m(rla, rlo, t.lat, t.lon) > 40.0 * 1852.0 {
+                            judge = false;
+                            out.count("surface_skipped_reference_moved_away", 1);
+                        }
+                    }
+                }
+                if judge {
+                    compared += 1;
+                    if t.surface {
+                        out.count("surface_checked", 1);
+                    }
+                    let d = world::gc_dist_m(la, lo, t.lat, t.lon);
+                    if viol.is_none() && (!(d <= 25.0) || !(-90.0..=90.0).contains(&la)) {
+                        let r = &plan.reports[b.idx];
+                        viol = Some(Violation::new(
+                            "c06.1-wrong-position",
+                            format!("decode1090/{}", if t.surface { "surface" } else { "airborne" }),
+                            format!(
+                                "decode1090 printed ({:.5}, {:.5}) for report #{} of aircraft {:06x} (encoded at t={:.2}s), the aircraft was at ({:.5}, {:.5}): {:.0} m off",
+                                la, lo, b.idx, plan.aircraft[r.ac as usize % plan.aircraft.len()].icao, r.t_enc, t.lat, t.lon, d
+                            ),
+                        ));
+                    }
+                }
+                if !t.surface && v["altitude"].as_i64().map_or(false, |a| a < 1000) {
+                    reference = Some((la, lo));
+                    out.count("reference_moved", 1);
+                }
+            }
+            (None, None) => {}
+            _ => {
+                if viol.is_none() {
+                    viol = Some(Violation::new("c06.1-wrong-position", "half-position", format!("decode1090 printed only one of latitude/longitude for report #{}", b.idx)));
+                }
+            }
+        }
+    }
+    out.count("positions_printed", printed);
+    out.count("positions_checked", compared);
+    // fault counters from the plan
+    let mut last_ts: Vec<Option<f64>> = vec![None; plan.aircraft.len()];
+    let mut sig = Fnv::new();
+    for b in &built {
+        let r = &plan.reports[b.idx];
+        let ai = r.ac as usize % plan.aircraft.len();
+        match r.fault {
+            1 => {
+                out.count("duplicate", 1);
+                faulty = true;
+            }
+            2 => {
+                out.count("timestamp_swap", 1);
+                faulty = true;
+            }
+            3 => {
+                out.count("order_swap", 1);
+                faulty = true;
+            }
+            _ => {}
+        }
+        let gap = last_ts[ai].map(|t| r.ts - t).unwrap_or(0.0);
+        if gap >= 9.5 {
+            out.count("loss_or_gap_over_9_5s", 1);
+            faulty = true;
+        }
+        last_ts[ai] = Some(r.ts);
+        sig.u64(((ai as u64) << 40) | ((r.odd as u64) << 39) | ((b.truth.surface as u64) << 38) | ((gap.min(4000.0) * 10.0) as u64) << 4 | r.fault as u64);
+    }
+    sig.u64(plan.dedup_ms as u64);
+    for ac in &plan.aircraft {
+        sig.u64(((ac.track.lat0.floor() as i64 + 90) as u64) << 10 | (ac.track.lon0.floor() as i64 + 180) as u64);
+    }
+    out.sigs.push(sig.0);
+    if faulty && compared > 0 {
+        out.nontrivial_sigs.push(sig.0);
+    }
+    out.steps = built.len() as u64;
+    out.sim_ns = (plan.reports.iter().map(|r| r.ts).fold(0.0, f64::max) * 1e9) as u64;
+    out.log_hash = {
+        let mut f = Fnv::new();
+        f.bytes(&o.stdout);
+        f.u64(viol.is_some() as u64);
+        f.0
+    };
     out.violation = viol;
     out
 }
